@@ -491,8 +491,8 @@ def run(rep, program: Program, tier: str) -> None:
         "named suppressions (one symbol each, with reason): " + "; ".join(f"{c}.{p}: {why}" for (c, p), why in SUPPRESS.items()),
         "bit-identical repeatability of LAPACK calls is not decided; copy/deepcopy/pickle use the default protocol (no class overrides them - checked)",
     ]
-    rule_r1(rep, program)
-    rule_r2_r3(rep, program)
+    rep.isolate(rule_r1, rep, program)
+    rep.isolate(rule_r2_r3, rep, program)
     # no class customises copying/pickling
     r = rep.rule("R4", "no matrix class overrides __copy__/__deepcopy__/__reduce__/__getstate__ (default protocols preserve exactly the attributes equality compares)", floor=30)
     for k in program.subclasses("Matrix"):
